@@ -160,6 +160,58 @@ def real_parse(text, lib=None):
     return line, a
 
 
+def grammar_coverage(asts):
+    """Distribution of the accepted declarations over the grammar (all nesting levels): declarator depth,
+    pointer chain, specifier multisets, attribute kinds, parameter counts, arrays, template arguments."""
+    cov = {"declarations": 0, "declarator_depth": {}, "pointer_chain": {}, "specifier_multisets": {}, "attribute_kinds": {},
+           "param_count": {}, "array_dims": {}, "param_nesting": {}, "template_args": 0, "cv": {}, "storage": 0, "default_value": 0}
+
+    def bump(d, k):
+        d[str(k)] = d.get(str(k), 0) + 1
+
+    def walk(a, level):
+        cov["declarations"] += 1
+        depth, chain, dd = 0, "", a.declarator
+        if dd is None:
+            bump(cov["declarator_depth"], "none")
+        else:
+            while dd is not None:
+                chain += "".join(p.ptr + ("c" if p.const else "") + ("v" if p.volatile else "") for p in dd.pointer)
+                if dd.func is not None:
+                    depth += 1
+                    chain += "("
+                dd = dd.func
+            bump(cov["declarator_depth"], depth)
+        bump(cov["pointer_chain"], chain or "-")
+        bump(cov["specifier_multisets"], " ".join(sorted(a.specifier)))
+        bump(cov["cv"], ("c" if a.const else "") + ("v" if a.volatile else "") or "-")
+        cov["storage"] += 1 if a.storage else 0
+        cov["default_value"] += 1 if a.init is not None else 0
+        cov["template_args"] += 1 if a.template_arguments else 0
+        bump(cov["array_dims"], len(a.array))
+        bump(cov["param_nesting"], level)
+        for k, v in a.attrs.items():
+            if v is None:
+                continue
+            kind = "flag" if v is True else type(v).__name__
+            bump(cov["attribute_kinds"], kind)
+        if a.params is not None:
+            bump(cov["param_count"], len(a.params))
+            for p in a.params:
+                walk(p, level + 1)
+
+    for a in asts:
+        if a is not None and hasattr(a, "specifier"):
+            walk(a, 0)
+    top = sorted(cov["specifier_multisets"].items(), key=lambda kv: -kv[1])
+    cov["specifier_multisets_distinct"] = len(top)
+    cov["specifier_multisets"] = dict(top[:40])
+    chains = sorted(cov["pointer_chain"].items(), key=lambda kv: -kv[1])
+    cov["pointer_chain_distinct"] = len(chains)
+    cov["pointer_chain"] = dict(chains[:30])
+    return cov
+
+
 def outcome_class(line):
     return line.split(" ", 1)[0] if not line.startswith("crash") else line
 
